@@ -187,4 +187,15 @@ PROPS = {
              "params": {"quick": {"templates": 5}, "thorough": {"templates": 10}}, "wall": {"thorough": "40m"}},
         ],
     },
+    "C07": {
+        "technique": "bounded symbolic execution of EVAL's context poll, macroexpand, the try budget split, the deferred finally, core.sleep, Future.Deref and the real context.WithTimeout/WithCancel: (1) logical time: the cancellation instant is a solver variable (the k-th loop iteration) for non-terminating programs; (2) virtual time: sleep durations and the deadline are solver variables over one virtual clock (time.* models), the 80% split's division is decided by z3 5.1 / cvc5; exhausting the step budget counts as a hang",
+        "outside": "wall-clock latency, GC/scheduler delay, the duration of one builtin call, builtins that block without a context (read-line); loops that do not call the tick builtin; nesting/k/durations beyond the bounds (durations < 2^20 ms)",
+        "level_note": "partial claim: promptness is established in logical / virtual time only; trusted: go/ssa, the symgo interpreter, its time/context/channel models and virtual clock, z3",
+        "runs": [
+            {"pkg": "./c07", "harness": "Harness_cancel", "setup": "Setup", "hang": True, "budget": 3000000, "native_timeout": 30,
+             "params": {"quick": {"nest": 1, "maxk": 3}, "thorough": {"nest": 2, "maxk": 6}}, "wall": {"thorough": "40m"}},
+            {"pkg": "./c07", "harness": "Harness_sleep", "setup": "Setup", "hang": True, "solver": "z3-new", "native_timeout": 30,
+             "params": {"quick": {}, "thorough": {}}},
+        ],
+    },
 }
